@@ -1,0 +1,25 @@
+//go:build verif
+
+// Package verifhook provides named schedule points for the external
+// verification harness. It is only active when built with the "verif" tag.
+package verifhook
+
+import "sync/atomic"
+
+var hook atomic.Pointer[func(string)]
+
+// SetHook installs (or, with nil, removes) the callback invoked at every Point.
+func SetHook(f func(string)) {
+	if f == nil {
+		hook.Store(nil)
+		return
+	}
+	hook.Store(&f)
+}
+
+// Point calls the installed hook, if any, with the name of the schedule point.
+func Point(name string) {
+	if h := hook.Load(); h != nil {
+		(*h)(name)
+	}
+}
